@@ -58,6 +58,8 @@ func checkC15(p *Prog, r *Report) {
 		}
 	}
 	nCall, nGo := 0, 0
+	var levelVars []ssa.Value
+	var itemBlocks []*ssa.BasicBlock
 	for _, fn := range p.RepoFns("spine") {
 		forEachCall(fn, func(site ssa.CallInstruction) {
 			c := site.Common()
@@ -86,6 +88,7 @@ func checkC15(p *Prog, r *Report) {
 			}
 			// level test
 			isCore, known := false, false
+			var levelVar ssa.Value
 			for _, g := range Guards(site.Block()) {
 				bo, ok := g.Cond.(*ssa.BinOp)
 				if !ok || (bo.Op != token.EQL && bo.Op != token.NEQ) {
@@ -97,10 +100,15 @@ func checkC15(p *Prog, r *Report) {
 				}
 				// only the test of the loop's level variable against the core constant (not the item filter)
 				if k == core && !strings.Contains(Path(bo.X), ".Level") {
+					levelVar = bo.X
 					known = true
 					isCore = (bo.Op == token.EQL) == g.Val
 				}
 			}
+			if levelVar != nil {
+				levelVars = append(levelVars, levelVar)
+			}
+			itemBlocks = append(itemBlocks, elementLoadBlock(c.Value))
 			want := "call"
 			if !isCore {
 				want = "go"
@@ -131,6 +139,32 @@ func checkC15(p *Prog, r *Report) {
 	if nCall != 1 || nGo != 1 {
 		r.Undecided("R3", "floor:invocations", "", fmt.Sprintf("%d synchronous and %d asynchronous handler invocations found, one each expected", nCall, nGo))
 	}
+	// core first: the loop over the levels encloses the loop over the handlers (all handlers of one level are
+	// processed before the next level starts)
+	okNest := len(levelVars) > 0 && len(itemBlocks) > 0
+	nestDetail := ""
+	for _, lv := range levelVars {
+		lb := elementLoadBlock(lv)
+		if lb == nil {
+			okNest = false
+			nestDetail = "the level tested is not an element of a sequence being iterated"
+			continue
+		}
+		hl := innermostLoopHeader(lb)
+		for _, ib := range itemBlocks {
+			if ib == nil {
+				okNest = false
+				nestDetail = "the handler invoked is not an element of a list being iterated"
+				continue
+			}
+			hi := innermostLoopHeader(ib)
+			if hl == nil || hi == nil || hl == hi || !hl.Dominates(hi) || !blockReaches(hi, hl) {
+				okNest = false
+				nestDetail = "the loop over the handler list is not nested inside the loop over the levels: a handler of a later level can be started before a core handler further down the list has run"
+			}
+		}
+	}
+	r.Check("R3", FnName(publish)+"|levels-outermost", okNest, p.Pos(publish.Pos()), "the level loop encloses the handler loop. "+nestDetail)
 	// level sequence starts with core
 	first := int64(-1)
 	for _, b := range publish.Blocks {
@@ -275,4 +309,51 @@ func c15ScanContent(p *Prog, ls *Lockset, r *Report) {
 		}
 		r.Check("R6", fmt.Sprintf("field:events.handlers|fn:%s|scan-compares", FnName(fn)), fields["Level"] && fields["Handler"], p.InstrPos(a.Ins), fmt.Sprintf("the deciding conditions compare %v of the existing items", sortedKeys(fields)))
 	}
+}
+
+// elementLoadBlock: v is (a field of) an element loaded from a slice or array
+// by index; the block of that load.
+func elementLoadBlock(v ssa.Value) *ssa.BasicBlock {
+	for d := 0; d < 8 && v != nil; d++ {
+		switch x := v.(type) {
+		case *ssa.UnOp:
+			if ia, ok := x.X.(*ssa.IndexAddr); ok {
+				return ia.Block()
+			}
+			v = x.X
+		case *ssa.FieldAddr:
+			v = x.X
+		case *ssa.Field:
+			v = x.X
+		case *ssa.Index:
+			return x.Block()
+		case *ssa.IndexAddr:
+			return x.Block()
+		case *ssa.MakeInterface:
+			v = x.X
+		case *ssa.ChangeInterface:
+			v = x.X
+		case *ssa.Alloc:
+			if s := singleStore(x); s != nil {
+				v = s
+			} else {
+				return nil
+			}
+		default:
+			return nil
+		}
+	}
+	return nil
+}
+
+// innermostLoopHeader: the closest dominator of b with a back edge from a block b reaches.
+func innermostLoopHeader(b *ssa.BasicBlock) *ssa.BasicBlock {
+	for d := b; d != nil; d = d.Idom() {
+		for _, pr := range d.Preds {
+			if d.Dominates(pr) && blockReachesOrSame(b, pr) {
+				return d
+			}
+		}
+	}
+	return nil
 }
